@@ -219,14 +219,14 @@ Proof.
   destruct (IH g1 g' (add_connection_invS g a b g1 I A E) (B g1 E) H) as [X Y]. split; [exact X|].
   rewrite Y. apply (add_connection_fx g a b); exact E.
 Qed.
-Lemma delete_connections_invS ks : forall g g', fx_nbr (fx g) = false -> InvS g -> delete_connections g ks = Ok g' -> InvS g' /\ fx g' = fx g.
+Lemma delete_connections_invS ks : forall g g', InvS g -> delete_connections g ks = Ok g' -> InvS g' /\ fx g' = fx g.
 Proof.
-  induction ks as [|k r IH]; intros g g' Fx I H; cbn [delete_connections] in H; [inversion H; subst; auto|].
+  induction ks as [|k r IH]; intros g g' I H; cbn [delete_connections] in H; [inversion H; subst; auto|].
   destruct (delete_connection g k) as [g1|] eqn:E; cbn [bind] in H; [|discriminate].
-  pose proof (delete_connection_invS g k g1 Fx I E) as I1.
-  destruct (delete_connection_closed g k g1 Fx E) as [k' [_ [_ [_ Eg1]]]].
+  pose proof (delete_connection_invS g k g1 I E) as I1.
+  destruct (delete_connection_closed_any g k g1 E) as [k' [N [_ [_ [_ [Eg1 _]]]]]].
   assert (Fx1 : fx g1 = fx g) by (rewrite Eg1; reflexivity).
-  destruct (IH g1 g' ltac:(rewrite Fx1; exact Fx) I1 H) as [X Y]. split; [exact X|congruence].
+  destruct (IH g1 g' I1 H) as [X Y]. split; [exact X|congruence].
 Qed.
 Lemma delete_nodes_fx names : forall g g', delete_nodes g names = Ok g' -> fx g' = fx g.
 Proof.
@@ -241,41 +241,41 @@ Proof.
 Qed.
 Lemma fix_layer_invS g l : InvS g -> InvS (fix_layer g l).
 Proof. intro I. unfold fix_layer. destruct (_ && _); [exact I|]. apply invS_set_lcen, invS_set_ltop, invS_set_lbot, I. Qed.
-Theorem check_fix_invS g hm_ hbad g' : fx_nbr (fx g) = false -> InvS g -> conns_ok g hm_ -> check_fix g hm_ hbad = Ok g' -> InvS g'.
+Theorem check_fix_invS g hm_ hbad g' : InvS g -> conns_ok g hm_ -> check_fix g hm_ hbad = Ok g' -> InvS g'.
 Proof.
-  intros Fx I Ok_ H. unfold check_fix in H.
+  intros I Ok_ H. unfold check_fix in H.
   destruct (add_missing g hm_) as [g1|] eqn:E1; cbn [bind] in H; [|discriminate].
   unfold add_missing in E1. destruct (is_ordering_of _ _); [|discriminate].
   destruct (add_connections_invS _ _ _ I Ok_ E1) as [I1 F1].
   destruct (delete_connections g1 (extra_keys g1)) as [g2|] eqn:E2; cbn [bind] in H; [|discriminate].
-  destruct (delete_connections_invS _ _ _ ltac:(rewrite F1; exact Fx) I1 E2) as [I2 F2].
+  destruct (delete_connections_invS _ _ _ I1 E2) as [I2 F2].
   destruct (delete_orphans g2) as [g3|] eqn:E3; cbn [bind] in H; [|discriminate].
   pose proof (delete_orphans_invS g2 g3 I2 E3) as I3.
   destruct (fix_centres g3 hbad) as [g4|] eqn:E4; cbn [bind] in H; [|discriminate].
   pose proof (fix_centres_invS _ _ _ I3 E4) as I4.
   inversion H; subst g'. apply fold_invS; [intros; apply fix_layer_invS; assumption|exact I4].
 Qed.
-Lemma delete_columns_invS names : forall g g', fx_nbr (fx g) = false -> InvS g -> delete_columns g names = Ok g' -> InvS g' /\ fx g' = fx g.
+Lemma delete_columns_invS names : forall g g', InvS g -> delete_columns g names = Ok g' -> InvS g' /\ fx g' = fx g.
 Proof.
-  induction names as [|n r IH]; intros g g' Fx I H; cbn [delete_columns] in H; [inversion H; subst; auto|].
+  induction names as [|n r IH]; intros g g' I H; cbn [delete_columns] in H; [inversion H; subst; auto|].
   destruct (delete_column g n) as [g1|] eqn:E; cbn [bind] in H; [|discriminate].
-  pose proof (delete_column_invS g n g1 Fx I E) as I1.
-  destruct (delete_column_closed g n g1 Fx I E) as [C [D [L [mb [mn [cd [cl_ [Eg1 _]]]]]]]].
+  pose proof (delete_column_invS g n g1 I E) as I1.
+  destruct (delete_column_closed g n g1 I E) as [C [D [L [mb [mn [cd [cl_ [Eg1 _]]]]]]]].
   assert (Fx1 : fx g1 = fx g) by (rewrite Eg1; reflexivity).
-  destruct (IH g1 g' ltac:(rewrite Fx1; exact Fx) I1 H) as [X Y]. split; [exact X|congruence].
+  destruct (IH g1 g' I1 H) as [X Y]. split; [exact X|congruence].
 Qed.
 (** reduce keeps the object graph, provided each missing connection it adds joins columns that share a side *)
-Theorem reduce_invS g names hm_ hbad g' : fx_nbr (fx g) = false -> InvS g ->
+Theorem reduce_invS g names hm_ hbad g' : InvS g ->
   (forall g1, delete_columns g (map (cn g) (filter (fun c => negb (existsb (fun n => match cget g n with Some x => Pos.eqb x c | None => false end) names)) (clist g))) = Ok g1 -> conns_ok g1 hm_) ->
   reduce g names hm_ hbad = Ok g' -> InvS g'.
 Proof.
-  intros Fx I Ok_ H. unfold reduce in H.
+  intros I Ok_ H. unfold reduce in H.
   destruct (lookup_cols g names) as [keep|] eqn:E0; cbn [bind] in H; [|discriminate].
   match type of H with (do g1 <- delete_columns g ?L; _) = _ => destruct (delete_columns g L) as [g1|] eqn:E1 end; cbn [bind] in H; [|discriminate].
-  destruct (delete_columns_invS _ _ _ Fx I E1) as [I1 F1].
+  destruct (delete_columns_invS _ _ _ I E1) as [I1 F1].
   destruct (check_fix g1 hm_ hbad) as [g2|] eqn:E2; cbn [bind] in H; [|discriminate].
   eapply setup_names_invS; [|exact H].
-  eapply check_fix_invS; [rewrite F1; exact Fx|exact I1| |exact E2].
+  eapply check_fix_invS; [exact I1| |exact E2].
   apply Ok_. rewrite <- E1. f_equal. f_equal. apply filter_ext. intro c. f_equal.
   clear - E0. revert keep E0. induction names as [|n r IH]; intros keep E0; cbn [lookup_cols] in E0.
   - inversion E0; reflexivity.
